@@ -22,6 +22,11 @@ class_by_name(name)               concrete class by __name__ (replays)
 behaviour_signature(cls)          everything that makes two classes transcode differently
 representatives(classes)          first class of every behaviour signature
 same_value(a, b)                  value equality for decoded DPT values (NaN == NaN, dataclasses field-wise)
+families(classes)                 classes grouped by (payload kind, length): they can receive the same payload
+family_payloads(members, rng, n)  payloads for such a family (complete space if <= 256 points)
+order_dependence(members, payloads, rng)
+                                  isolated vs interleaved (all classes of the family back to back, both
+                                  orders) from_knx / to_knx outcomes; yields every difference
 """
 
 from __future__ import annotations
@@ -275,3 +280,104 @@ def same_value(a: Any, b: Any, depth: int = 0) -> bool:
             same_value(getattr(a, f.name), getattr(b, f.name), depth + 1) for f in dataclasses.fields(a)
         )
     return bool(a == b)
+
+
+# -- order dependence (calls must not depend on earlier calls, also across classes) ------------
+
+def families(classes: list[type[DPTBase]]) -> dict[tuple[str, int], list[type[DPTBase]]]:
+    """Classes grouped by payload kind and length: the ones that can be handed the same payload."""
+    out: dict[tuple[str, int], list[type[DPTBase]]] = {}
+    for cls in classes:
+        out.setdefault((cls.payload_type.__name__, cls.payload_length), []).append(cls)
+    return out
+
+
+def family_payloads(members: list[type[DPTBase]], rng: Any, n: int) -> list[DPTArray | DPTBinary]:
+    """Payloads of the family's kind/length: the whole space if it has <= 256 points, else n distinct ones."""
+    first = members[0]
+    size = space_size(first)
+    if size <= 256:
+        return [mk(first, i) for i in range(size)]
+    seen: dict[tuple[int, ...], DPTArray | DPTBinary] = {}
+    length = first.payload_length
+    structured = list(own_payloads(members[rng.randrange(len(members))], rng, n_random=n))
+    for payload in rng.sample(structured, min(len(structured), n // 2)):
+        seen.setdefault(tuple(payload.value), payload)
+    while len(seen) < n:
+        cand = tuple(rng.randrange(256) for _ in range(length))
+        seen.setdefault(cand, DPTArray(cand))
+    return list(seen.values())
+
+
+def _outcome(fn: Any, arg: Any) -> tuple[str, Any]:
+    try:
+        return "ok", fn(arg)
+    except DECLARED_ERRORS as exc:
+        return "reject", type(exc).__name__
+    except BaseException as exc:  # noqa: BLE001
+        return "crash", type(exc).__name__
+
+
+def _same_outcome(a: tuple[str, Any], b: tuple[str, Any]) -> bool:
+    if a[0] != b[0]:
+        return False
+    if a[0] == "ok":
+        return same_value(a[1], b[1]) if not isinstance(a[1], (DPTArray, DPTBinary)) else a[1] == b[1]
+    return bool(a[1] == b[1])
+
+
+def order_dependence(members: list[type[DPTBase]], payloads: list[Any], rng: Any, flush: int = 300) -> Iterator[dict[str, Any]]:
+    """Find from_knx / to_knx results that depend on earlier calls (also calls on sibling classes).
+
+    Phase A (isolation): each class alone, after `flush` decodes of other payloads (so that anything
+    a bounded cache kept from other classes is gone), decodes every payload -> reference outcome;
+    likewise it encodes each of its own reference values -> reference payload.
+    Phase B (interleaved): every payload is decoded by all classes of the family back to back, in
+    class order and at once in the reverse order (alternating which comes first); then every class
+    encodes its reference value for that payload back to back in the same orders.  An outcome
+    that differs from the isolated one is yielded:
+    {"op": "decode"|"encode", "cls", "payload", "isolated", "interleaved", "after": [classes called just before]}.
+    Outcomes are ("ok", value) | ("reject", exception class name) | ("crash", exception class name).
+    """
+    first = members[0]
+    size = space_size(first)
+    in_set = {tuple(p.value) if isinstance(p, DPTArray) else p.value for p in payloads}
+    filler: list[Any] = []
+    for _ in range(flush):
+        if size <= 256:
+            filler.append(mk(first, rng.randrange(size)))
+        else:
+            cand = tuple(rng.randrange(256) for _ in range(first.payload_length))
+            if cand not in in_set:
+                filler.append(DPTArray(cand))
+    ref_dec: dict[type, list[tuple[str, Any]]] = {}
+    ref_enc: dict[type, list[tuple[str, Any] | None]] = {}
+    for cls in members:
+        fill_values = []
+        for payload in filler:
+            status, value = _outcome(cls.from_knx, payload)
+            if status == "ok":
+                fill_values.append(value)
+        ref_dec[cls] = [_outcome(cls.from_knx, payload) for payload in payloads]
+        for value in fill_values:
+            _outcome(cls.to_knx, value)
+        ref_enc[cls] = [_outcome(cls.to_knx, o[1]) if o[0] == "ok" else None for o in ref_dec[cls]]
+    forward = list(members)
+    backward = list(reversed(members))
+    for j, payload in enumerate(payloads):
+        orders = (forward, backward) if j % 2 == 0 else (backward, forward)
+        for order in orders:
+            for k, cls in enumerate(order):
+                got = _outcome(cls.from_knx, payload)
+                if not _same_outcome(got, ref_dec[cls][j]):
+                    yield {"op": "decode", "cls": cls, "payload": payload, "isolated": ref_dec[cls][j], "interleaved": got,
+                           "after": [c.__name__ for c in order[max(0, k - 3):k]]}
+        for order in orders:
+            for k, cls in enumerate(order):
+                ref = ref_enc[cls][j]
+                if ref is None:
+                    continue
+                got = _outcome(cls.to_knx, ref_dec[cls][j][1])
+                if not _same_outcome(got, ref):
+                    yield {"op": "encode", "cls": cls, "payload": payload, "value": ref_dec[cls][j][1], "isolated": ref, "interleaved": got,
+                           "after": [c.__name__ for c in order[max(0, k - 3):k]]}
